@@ -3,6 +3,7 @@ package pongo2
 import (
 	"bytes"
 	"fmt"
+	"reflect"
 )
 
 type nodeFilterCall struct {
@@ -33,11 +34,10 @@ func (node *tagFilterNode) Execute(ctx *ExecutionContext, writer TemplateWriter)
 			if err != nil {
 				return err
 			}
-			if _, isLiteral := call.paramExpr.(*stringResolver); !isLiteral && ctx.Autoescape &&
-				!param.safe && (param.IsString() || param.isStringer()) {
+			if _, isLiteral := call.paramExpr.(*stringResolver); !isLiteral && ctx.Autoescape {
 				// The body is already escaped and the result is written as is, so a
 				// parameter taken from the context must be escaped as well.
-				param, err = ApplyFilter("escape", param, nil)
+				param, err = escapeFilterTagParam(param, 0)
 				if err != nil {
 					return err
 				}
@@ -54,6 +54,58 @@ func (node *tagFilterNode) Execute(ctx *ExecutionContext, writer TemplateWriter)
 	writer.WriteString(value.String())
 
 	return nil
+}
+
+// escapeFilterTagParam escapes the text a parameter of the filter tag carries: the
+// parameter itself when it is printed as text, and the items of a list or the
+// keys and values of a map (which filters like join, first, last, random or
+// stringformat hand on).
+func escapeFilterTagParam(param *Value, depth int) (*Value, *Error) {
+	if param.safe || param.IsNil() || depth > 16 {
+		return param, nil
+	}
+	if param.IsString() || param.isStringer() {
+		return ApplyFilter("escape", param, nil)
+	}
+	rv := param.getResolvedValue()
+	switch rv.Kind() {
+	case reflect.Slice, reflect.Array:
+		items := make([]any, rv.Len())
+		for i := range items {
+			if !rv.Index(i).CanInterface() {
+				return param, nil
+			}
+			item, err := escapeFilterTagParam(AsValue(rv.Index(i).Interface()), depth+1)
+			if err != nil {
+				return nil, err
+			}
+			items[i] = item.Interface()
+		}
+		return AsValue(items), nil
+	case reflect.Map:
+		escaped := make(map[any]any, rv.Len())
+		iter := rv.MapRange()
+		for iter.Next() {
+			if !iter.Key().CanInterface() || !iter.Value().CanInterface() {
+				return param, nil
+			}
+			key := iter.Key().Interface()
+			if k := AsValue(key); k.IsString() || k.isStringer() {
+				ek, err := ApplyFilter("escape", k, nil)
+				if err != nil {
+					return nil, err
+				}
+				key = ek.Interface()
+			}
+			item, err := escapeFilterTagParam(AsValue(iter.Value().Interface()), depth+1)
+			if err != nil {
+				return nil, err
+			}
+			escaped[key] = item.Interface()
+		}
+		return AsValue(escaped), nil
+	}
+	return param, nil
 }
 
 func tagFilterParser(doc *Parser, start *Token, arguments *Parser) (INodeTag, *Error) {
